@@ -339,9 +339,15 @@ pub struct SectionStats {
     pub wall_s: f64,
     pub rule: String,
     pub extra: BTreeMap<String, Value>,
+    /// distinct non-trivial count measured elsewhere (a child process), added to the hash-set size
+    pub distinct_extra: u64,
 }
 
 impl SectionStats {
+    pub fn distinct(&self) -> u64 {
+        self.nontrivial_hashes.len() as u64 + self.distinct_extra
+    }
+
     fn merge(&mut self, o: SectionStats) {
         self.evaluations += o.evaluations;
         self.nontrivial_hashes.extend(o.nontrivial_hashes);
@@ -921,10 +927,45 @@ impl Report {
             self.cfg.prop,
             stats.name,
             stats.evaluations,
-            stats.nontrivial_hashes.len(),
+            stats.distinct(),
             stats.wall_s
         );
         self.sections.push(stats);
+    }
+
+    /// Fold the evidence JSON written by a child process (VERIF_CHILD_OUT) into this report.
+    pub fn add_child_evidence(&mut self, prefix: &str, ev: &Value) {
+        let Some(secs) = ev["coverage"]["sections"].as_object() else { return };
+        for (name, s) in secs {
+            let mut st = SectionStats {
+                name: format!("{prefix}{name}"),
+                evaluations: s["evaluations"].as_u64().unwrap_or(0),
+                distinct_extra: s["distinct_nontrivial"].as_u64().unwrap_or(0),
+                excluded_known: s["excluded_known"].as_u64().unwrap_or(0),
+                wall_s: s["wall_s"].as_f64().unwrap_or(0.0),
+                stopped_by_budget: s["stopped_by_budget"].as_bool().unwrap_or(false),
+                ..Default::default()
+            };
+            if let Some(classes) = ev["coverage"]["classes"].as_object() {
+                for (k, v) in classes {
+                    if let Some(rest) = k.strip_prefix(&format!("{name}/")) {
+                        st.classes.insert(rest.to_string(), v.as_u64().unwrap_or(0));
+                    }
+                }
+            }
+            if let Some(samples) = ev["coverage"]["samples"].as_array() {
+                for smp in samples.iter().filter(|x| x["section"].as_str() == Some(name)).take(2) {
+                    st.samples.push(smp["case"].clone());
+                }
+            }
+            self.sections.push(st);
+        }
+        if let Some(k) = ev["coverage"]["known_findings_reproduced"].as_array() {
+            let mut seen = self.known_seen.lock().unwrap();
+            for s in k.iter().filter_map(|x| x.as_str()) {
+                seen.insert(s.to_string());
+            }
+        }
     }
 
     /// Report a violation found by a manual section. `case` is written as the replay file.
@@ -971,7 +1012,7 @@ impl Report {
         let mut all_exhaustive = !self.sections.is_empty();
         for s in &self.sections {
             evaluations += s.evaluations;
-            distinct += s.nontrivial_hashes.len() as u64;
+            distinct += s.distinct();
             excluded += s.excluded_known;
             all_exhaustive &= s.exhaustive;
             for smp in s.samples.iter().take(2) {
@@ -985,7 +1026,7 @@ impl Report {
             }
             let mut o = json!({
                 "evaluations": s.evaluations,
-                "distinct_nontrivial": s.nontrivial_hashes.len(),
+                "distinct_nontrivial": s.distinct(),
                 "excluded_known": s.excluded_known,
                 "wall_s": (s.wall_s * 100.0).round() / 100.0,
                 "stopped_by_budget": s.stopped_by_budget,
@@ -1023,7 +1064,10 @@ impl Report {
             "wall_s": (wall * 100.0).round() / 100.0,
             "violations": self.violations.len(),
         });
-        if self.cfg.replay.is_none() && self.cfg.only.is_none() {
+        if let Ok(child_out) = std::env::var("VERIF_CHILD_OUT") {
+            // a helper process of a check (e.g. the small-chunk build): the parent folds this in
+            let _ = std::fs::write(&child_out, serde_json::to_string(&ev).unwrap());
+        } else if self.cfg.replay.is_none() && self.cfg.only.is_none() {
             let dir = self.cfg.root.join("evidence");
             let _ = std::fs::create_dir_all(&dir);
             let path = dir.join(format!("{}.json", self.cfg.prop));
